@@ -63,7 +63,7 @@ func c07Config(r *fw.Rec, v int, l qrref.Level, mask int, reps int) {
 			// byte mode in a declared character set other than UTF-8: the count field counts the
 			// bytes of THAT encoding, which differ in number from the text's UTF-8 bytes
 			e := &csTable[rng.Intn(len(csTable))]
-			if e.Kind == 0 || e.Kind == 1 || e.Kind == 3 {
+			if e.Kind == 0 || e.Kind == 1 || e.Kind == 3 || e.Kind == 4 {
 				rs := []rune{rune('a' + rng.Intn(26))}
 				var bs []byte
 				for {
@@ -74,7 +74,7 @@ func c07Config(r *fw.Rec, v int, l qrref.Level, mask int, reps int) {
 					}
 					rs, bs = cand, b
 				}
-				if bs != nil && len(bs) != len(string(rs)) {
+				if bs != nil && (len(bs) != len(string(rs)) || e.Kind == 4) {
 					text, charset = string(rs), e.Name
 					segs = []qrref.Segment{{Mode: qrref.ModeECI, ECI: e.Values[0]}, {Mode: qrref.Byte, Data: bs, ECI: -1}}
 					r.Tally("byte_mode_in_declared_non_utf8_charset")
@@ -165,6 +165,59 @@ func c07Config(r *fw.Rec, v int, l qrref.Level, mask int, reps int) {
 			r.Sample(info)
 		}
 	}
+}
+
+// c07AutoMask: the mask is left to the encoder (its choice is not judged - the penalty rule N3
+// is ambiguous - but the symbol must be the standard construction under the mask it reports).
+// Three symbols of one version are encoded one after the other and ALL results are compared
+// again at the end: a result handed out earlier must not change when the encoder works again.
+func c07AutoMask(r *fw.Rec, v int, l qrref.Level) {
+	rng := r.Rng
+	type held struct {
+		code *qrenc.QRCode
+		ref  [][]bool
+		text string
+	}
+	var hs []held
+	for i := 0; i < 3; i++ {
+		mode := qrAllModes[rng.Intn(4)]
+		n := qrLenIn(rng, v, l, mode)
+		if n == 0 {
+			continue
+		}
+		text, segs, charset := qrPayload(rng, mode, n)
+		data, ok := qrref.DataCodewordsFor(v, l, segs)
+		if !ok {
+			continue
+		}
+		code, err := qrenc.Encoder_encode(text, qrLibLevel[l], qrHints(v, -1, charset))
+		r.Evals(1)
+		info := map[string]interface{}{"version": v, "level": qrLevelName[l], "mode": qrModeName[mode], "text": text}
+		if err != nil {
+			r.Violation("model-mismatch", "qr.encode:refused-fitting-content", fmt.Sprintf("Encoder_encode (automatic mask) refused %d %s characters for %d-%s: %v", n, qrModeName[mode], v, qrLevelName[l], err), info)
+			return
+		}
+		mask := code.GetMaskPattern()
+		if mask < 0 || mask > 7 || code.GetVersion().GetVersionNumber() != v {
+			r.Violation("model-mismatch", "qr.encode:automatic-mask-out-of-range", fmt.Sprintf("automatic mask: version %d mask %d", code.GetVersion().GetVersionNumber(), mask), info)
+			return
+		}
+		hs = append(hs, held{code, qrref.BuildMatrix(v, l, mask, data), text})
+		for hi, h := range hs {
+			if nd, where := diffModules(v, byteMatrixToBools(h.code.GetMatrix()), h.ref); nd != 0 {
+				sig := "qr.encode:matrix-differs:automatic-mask:" + whereKind(where)
+				what := "differs from the standard construction under the mask it reports"
+				if hi < len(hs)-1 {
+					sig = "qr.encode:earlier-result-changed-by-a-later-encode"
+					what = fmt.Sprintf("was correct when returned and differs after %d later encode(s) of the same version", len(hs)-1-hi)
+				}
+				r.Violation("model-mismatch", sig, fmt.Sprintf("%d-%s automatic mask %d: the matrix of %q %s (%d modules, first: %s)", v, qrLevelName[l], h.code.GetMaskPattern(), trunc(h.text, 40), what, nd, where), info)
+				return
+			}
+		}
+		r.Tally("automatic_mask_matrices_equal")
+	}
+	r.Nontrivial(fmt.Sprintf("automask/%d/%d/%d", v, l, rng.Uint64()))
 }
 
 func c07Tables(r *fw.Rec) {
@@ -280,7 +333,7 @@ func c07Tables(r *fw.Rec) {
 }
 
 func c07(c *fw.Ctx) {
-	c.Rule("all 1280 (version, level, mask) configurations, each with N payloads (modes rotate over numeric/alphanumeric/byte UTF-8/kanji, a third of the byte payloads in another declared character set of the registry - ECI header, count field = bytes of that encoding -, length capacity, capacity-1 or random; a third of the payloads as GS1 symbols: FNC1 in first position, after the ECI header where a character set is declared): library Encoder_encode with forced version and mask vs qrref.BuildMatrix module for module, and the library decoder on the qrref-built symbol (text, raw data codewords, level); plus the decoder's per-version tables and all 32+34 BCH words; distinct = distinct (version, level, mask, payload)")
+	c.Rule("all 1280 (version, level, mask) configurations, each with N payloads (modes rotate over numeric/alphanumeric/byte UTF-8/kanji, a third of the byte payloads in another declared character set of the registry - ECI header, count field = bytes of that encoding -, length capacity, capacity-1 or random; a third of the payloads as GS1 symbols: FNC1 in first position, after the ECI header where a character set is declared): library Encoder_encode with forced version and mask vs qrref.BuildMatrix module for module (and, for every other (version, level), three symbols with the mask left to the encoder, compared under the mask it reports and compared AGAIN after the later encodes), and the library decoder on the qrref-built symbol (text, raw data codewords, level); plus the decoder's per-version tables and all 32+34 BCH words; distinct = distinct (version, level, mask, payload)")
 	c.Assume("qrref (harness/ref/qrref) is the transcription of ISO/IEC 18004: tables typed independently, geometry/BCH/capacities computed; anchored on Annex I and published capacities in the start-up self-test")
 	c.Assume("automatic mask selection is not compared (the N3 penalty rule is ambiguous in the standard); masks are forced")
 	reps := c.Pick(6, 60)
@@ -295,6 +348,16 @@ func c07(c *fw.Ctx) {
 	}
 	c.Exhaustive("QR (version, level, mask) configurations: all 1280")
 	c.Exhaustive("decoder tables: 40 versions, 160 block structures, 32 format words, 34 version words")
+	for v := 1; v <= 40; v++ {
+		for _, l := range qrAllLevels {
+			v, l := v, l
+			if c.Quick() && (v+int(l))%2 != 0 {
+				continue
+			}
+			c.Run(fmt.Sprintf("automask/%d/%s", v, qrLevelName[l]), func(r *fw.Rec) { c07AutoMask(r, v, l) })
+		}
+	}
+	c.Floor("automatic_mask_matrices_equal", 200)
 	c.Floor("encoder_matrices_equal", int64(1280*reps*9/10))
 	c.Floor("decoder_reference_symbols_read", int64(1280*reps*9/10))
 	c.Floor("block_structures_equal", 160)
